@@ -98,6 +98,9 @@ func (c *c05Case) buildSegment(api, encoder string, nfrags int, extras bool) (ou
 	seg := mp4.NewMediaSegment()
 	var lazyData [][]byte
 	shift := map[int]int64{}
+	// one scratch slice for every batch handed to AddSamples / AddSampleInterval, refilled in place: the API takes the samples
+	// by value, so reusing the caller's slice for the next batch (or the next fragment) must not change what was added
+	scratch := make([]mp4.Sample, 0, 16)
 	for fr := 0; fr < nfrags; fr++ {
 		var frag *mp4.Fragment
 		if c.Kind == "single" {
@@ -114,6 +117,7 @@ func (c *c05Case) buildSegment(api, encoder string, nfrags int, extras bool) (ou
 		}
 		var data []byte
 		var all []mp4.Sample
+		var pieces [][]byte
 		durIn := map[int]int64{}
 		// the payloads handed to the API are sub-slices (with spare capacity) of ONE source buffer laid out
 		// first sample, then the others in reverse order - as when samples come out of a demuxed buffer in
@@ -160,17 +164,33 @@ func (c *c05Case) buildSegment(api, encoder string, nfrags int, extras bool) (ou
 			case "samples", "interval":
 				all = append(all, s)
 				data = append(data, d...)
+				pieces = append(pieces, d)
 			}
 		}
 		first := uint64(c.Hist[0].Dts + shift[c.Hist[0].T])
-		switch api {
-		case "samples":
-			frag.AddSamples(all, first)
-		case "interval":
-			if err := frag.AddSampleInterval(mp4.SampleInterval{FirstDecodeTime: first, Samples: all, Data: data}); err != nil {
-				return nil, err
+		if api == "samples" || api == "interval" {
+			// two batches when there are at least two samples, through the SAME scratch slice
+			batches := [][2]int{{0, len(all)}}
+			if len(all) >= 2 {
+				batches = [][2]int{{0, len(all) / 2}, {len(all) / 2, len(all)}}
 			}
-			data = nil
+			for _, b := range batches {
+				scratch = append(scratch[:0], all[b[0]:b[1]]...)
+				if api == "samples" {
+					frag.AddSamples(scratch, first)
+					continue
+				}
+				var bd []byte
+				for _, pc := range pieces[b[0]:b[1]] {
+					bd = append(bd, pc...)
+				}
+				if err := frag.AddSampleInterval(mp4.SampleInterval{FirstDecodeTime: first, Samples: scratch, Data: bd}); err != nil {
+					return nil, err
+				}
+			}
+			if api == "interval" {
+				data = nil
+			}
 		}
 		for t, d := range durIn {
 			shift[t] += d
